@@ -176,8 +176,9 @@ def sparse_getitem(sparse, idxs):
                 indices = new_indices
                 values = values[mask]
             else:
-                indices.resize_(indices.size(0) - 1, 1).zero_()
-                values.resize_(1).zero_()
+                # (new tensors: indices / values may still be the caller's sparse tensor's own storage)
+                indices = torch.zeros(indices.size(0) - 1, 1, dtype=indices.dtype, device=indices.device)
+                values = torch.zeros(1, dtype=values.dtype, device=values.device)
 
             if not len(size):
                 return sum(values)
@@ -201,8 +202,8 @@ def sparse_getitem(sparse, idxs):
                 indices = new_indices
                 values = values[mask]
             else:
-                indices.resize_(indices.size(0), 1).zero_()
-                values.resize_(1).zero_()
+                indices = torch.zeros(indices.size(0), 1, dtype=indices.dtype, device=indices.device)
+                values = torch.zeros(1, dtype=values.dtype, device=values.device)
 
         else:
             raise RuntimeError("Unknown index type")
@@ -212,7 +213,7 @@ def sparse_getitem(sparse, idxs):
 
 def sparse_repeat(sparse, *repeat_sizes):
     """ """
-    if len(repeat_sizes) == 1 and isinstance(repeat_sizes, tuple):
+    if len(repeat_sizes) == 1 and isinstance(repeat_sizes[0], (tuple, list, torch.Size)):
         repeat_sizes = repeat_sizes[0]
 
     if len(repeat_sizes) > len(sparse.shape):
@@ -241,9 +242,10 @@ def sparse_repeat(sparse, *repeat_sizes):
     for i, repeat_size in enumerate(repeat_sizes):
         if repeat_size > 1:
             new_indices = sparse._indices().repeat(1, repeat_size)
+            # the k-th copy is shifted by k times the current size of this dimension
             adding_factor = torch.arange(0, repeat_size, dtype=new_indices.dtype, device=new_indices.device).unsqueeze_(
                 1
-            )
+            ) * sparse.size(i)
             new_indices[i].view(repeat_size, -1).add_(adding_factor)
             sparse = torch.sparse_coo_tensor(
                 new_indices,
